@@ -120,6 +120,8 @@ def cluster_scripts():
         # not among the operations C10 quantifies over, see DESIGN 0.5.)
         {"id": "k14", "modern": True, "scripts": [H("n1", "loadp", "update", "cancel", "demote"), H("n2", "recreate", "demote")]},
         {"id": "k15", "modern": True, "scripts": [H("n1", "loadp", "cancel", "update", "update"), H("n1", "recreate", "demote")]},
+        # time passes (two hours by the newcomer's clock) while somebody holds the role: the role is still held
+        {"id": "k16", "scripts": [H("n1", "loadp", "update", "demote"), H("n2", "wait", "loadp", "demote"), H("n1", "wait", "load", "promote", "demote")]},
         {"id": "k9", "modern": True, "scripts": [H("n1", "load", "cancel", "promote"), H("n1", "loadp", "demote!1"), H("n1", "loadp", "jsonly!1"), H("n1", "load", "jsonly")]},
     ]
 
